@@ -87,8 +87,29 @@ def post_solve(ev, args, kwargs, ret, exc, pre_, depth):
         snapshot(p)
         _EPOCH[id(p)] = _EPOCH.get(id(p), -1) + 1
     flags, drift = classify(p)
-    return {'prism': ob.oid(p), 'success': 1 if ok else 0, 'flag': flags, 'drift': drift, 'rank': int(p.sys.rank),
-            'epoch': _EPOCH.get(id(p), 0)}
+    r = {'prism': ob.oid(p), 'success': 1 if ok else 0, 'flag': flags, 'drift': drift, 'rank': int(p.sys.rank),
+         'epoch': _EPOCH.get(id(p), 0)}
+    r.update(solve_classes(p))
+    return r
+
+
+def solve_classes(p):
+    """C01: do the arrays left on the object satisfy the PRISM equation / the closures for the user's inputs?
+    (independent evaluator harness/prism_eval.py; 'unjudged' when it cannot be evaluated)"""
+    try:
+        from harness import prism_eval
+        ob.HOLD += 1
+        try:
+            ev = prism_eval.evaluate(p)
+        finally:
+            ob.HOLD -= 1
+    except Exception as ex:       # the evaluator is ours: never let it disturb the execution under observation
+        return {'eqclass': 'unjudged', 'closclass': 'unjudged', 'evalerr': repr(ex)[:200]}
+    if not ev.get('judged'):
+        return {'eqclass': 'unjudged', 'closclass': 'unjudged'}
+    cl = lambda x: 'within' if x <= 1.0 else 'beyond'       # noqa: E731
+    return {'eqclass': cl(ev['eq']), 'closclass': cl(ev['clos']), 'eqmilli': int(min(ev['eq'], 1e6) * 1000),
+            'closmilli': int(min(ev['clos'], 1e6) * 1000)}
 
 
 def post_system_solve(ev, args, kwargs, ret, exc, pre_, depth):
